@@ -471,9 +471,15 @@ def childCtx (c : Ctx) : Ctx :=
 
 /-- a transform that `Matrix(text)` rejects is deleted from the element's attributes
     (svgelements.py: the `try: Matrix(...) except (ValueError, TypeError)` guard) -/
+def rejects (cfg : Cfg K) (t : String) : Bool :=
+  match cfg.tfErr [TfPiece.text t] with
+  | none => false
+  | some .deferred => false       -- a length kept symbolic is not an exception
+  | some _ => true
+
 def validAttrs (cfg : Cfg K) (a : Dict) : Dict :=
   match Dict.get a "transform" with
-  | some t => if (cfg.tfErr [TfPiece.text t]).isSome then Dict.erase a "transform" else a
+  | some t => if rejects cfg t then Dict.erase a "transform" else a
   | none => a
 
 /-- the inherited transform with the element's own appended -/
